@@ -84,6 +84,12 @@ CLAIMED = {
         "property-based testing of the pure weight function + stateful/model-based histories with snapshot-placement schedules",
         "DESIGN.md §4 C13",
     ),
+    "C14": (
+        "Differential stateful testing (query vs execution in the same state): pools and vaults are brought into arbitrary reachable states by generated histories (liquidity changes, donations, pending protocol fees, fee changes, amp ramps in progress), then probed: Simulation followed by the identical swap in the same block on constant-product pairs, two-asset stableswap pairs and the trio (all six directions, native and cw20 offers, optional receivers); SimulateSwapOperations followed by ExecuteSwapOperations over 1..3-hop routes of a three-pair chain; vault Share{n} followed by the withdrawal of n shares. Whenever execution succeeds the quote must have succeeded and be equal in every component; executed amounts are taken from swap attributes that are themselves checked against balance, circulating-supply and fee-ledger deltas.",
+        "Only 'execution succeeded => quote equal' is judged. Router equality only when the router held none of the route's assets beforehand.",
+        "differential property-based testing over generated histories (quote vs execution)",
+        "DESIGN.md §4 C14",
+    ),
     "C02": (
         "Generated-input search (proptest, 16 deterministic shards) over the whole documented domain [1,2^128)^3 x valid fee triples x decimals, judged against an independent exact 1024-bit reference: gross floor, fee floors, strict bound, totality inside the 128-bit domain, there-and-back with the case's fees and with zero fees, gross monotone in the offer. Exploration, not proof: millions of cases per quick run, hundreds of millions thorough, with boundary constants and extreme-ratio shapes weighted in.",
         "Trusts refmath.rs (bnum integers, self-tested at start-up) and that commands::swap / queries::query_simulation call the hooked compute_swap (cross-checked by C14). A panic is an abort.",
